@@ -12,6 +12,8 @@ CONSTANTS
   TimerOn = TRUE
   WithFail = TRUE
   MaxOps = 10
+  Muts = {"same", "grow", "shrink"}
   ResetOnError = TRUE
   AddBeforeChecks = TRUE
   RemoveWhole = TRUE
+  MeasureOnArrival = TRUE
